@@ -67,7 +67,10 @@ CHECKS = [
                 "generic contract 'children stay in schema order with schema multiplicities' on the same model (argument opaque or one "
                 "representative per kind the code asks about; what a child does to its own subtree is assumed not to move its "
                 "siblings); classes whose XSD type is not flattened, and members listed in _HW_NO_CONTRACT, are covered only by the "
-                "bounded C10.native_mutators job (the members singly and in ordered pairs on elements of real parts).",
+                "bounded C10.native_mutators job (the members singly and in ordered pairs on elements of real parts; hand-written property "
+                "setters with nine representative values, once and twice; every zero-argument creator called twice must give two elements; "
+                "every zero-argument remover must remove every child of the kind where the schema lets the child repeat). The truth value of "
+                "an element (lxml: 'has children') is outside the supported subset.",
     },
     {
         "property_id": "C06",
@@ -116,7 +119,9 @@ CHECKS = [
         "note": "Assumed (probed natively by C18.native_roundtrip, never counted as proved): strftime field widths (glibc %Y unpadded), "
                 "strptime needs a full match and inverts strftime, %04d renders 4 digits up to 9999, timedelta arithmetic, the offset "
                 "regex. cp:coreProperties is abstracted to one optional child per property. XSD validity of core.xml and the "
-                "save/re-open leg are bounded only. F9 and F26 repaired by fix: commits.",
+                "save/re-open leg are bounded only. F9 and F26 repaired by fix: commits. The part-level setters (CorePropertiesPart.X) are under "
+                "contract with the element's refusal as an uninterpreted predicate: an improper value never returns normally whatever the "
+                "property currently reads. The default part's `modified` is checked natively under three process time zones.",
     },
     {
         "property_id": "C15",
@@ -205,7 +210,11 @@ CHECKS = [
                 "bounded C09.native_setget_sweep job (about 100 read/write properties of shapes, text, tables, charts, fills, lines "
                 "with hand-listed documented domains: every value assigned from two prior values, None where documented, the "
                 "object's other independent properties re-read, the final state compared after save/re-open; never counted as "
-                "proved). F38, F39 found by the sweep and repaired. IEEE doubles as reals. isinstance(value, Length) on symbolic ints is not expressible (spcPts leg native only).",
+                "proved; also: pairs of sibling objects -- assign on a, assign on b, re-read a --, a chart gallery rewritten as another producer "
+                "writes it (legend placed by hand, schema defaults left implicit), refused values as the first assignment after a reset, links "
+                "sharing one address, edits that are neither position nor size on inheriting placeholders). Composite oxml setters that received "
+                "contracts of their own: CT_ManualLayout.horz_offset (prior states enumerated), the three hyperlink-removing helpers (release "
+                "order). F38, F39 found by the sweep and repaired. IEEE doubles as reals. isinstance(value, Length) on symbolic ints is not expressible (spcPts leg native only).",
     },
     {
         "property_id": "C04",
@@ -292,7 +301,8 @@ CHECKS.append({
             "(cache validity), Part.content_type write-once (static scan + symbolic read).",
     "note": "Assumed: C06 allocator contracts (fresh rId, part names), lxml xpath contract for //@r:id, Part equality is identity. Closure over all interleavings is by induction over the "
             "per-function contracts; functions without a contract and equality of the re-opened object graph are covered by the bounded C02.native_histories job only (80/1200 random histories over "
-            "14 operation kinds from the default template and from a deck with out-of-order slide part names; never counted as proved). F10 (stale cached relationship targets after rename) repaired "
+            "14 operation kinds from the default template and from decks with out-of-order / gap-named slide parts, relationship ids in other spellings, parts named like user files; every "
+            "other save goes into the previous buffer; the content-types item is part of the closure check; never counted as proved). F10 (stale cached relationship targets after rename) repaired "
             "by a fix: commit.",
 })
 
@@ -307,7 +317,8 @@ CHECKS.append({
             "get_or_add would create removed first when the corpus has no witness.",
     "note": "Accessors whose receivers cannot be typed are unresolved and covered only by the bounded C12.native_traversal job (every accessor on every reachable object of 15/61 decks, "
             "isolated replays, traverse-save-traverse-save against a straight open-save, a save before the first access to .slides, look-up methods called with own / foreign / absent "
-            "arguments; never counted as proved). Look-up methods (index, get, in, []) are analysed statically as calls; package-level writers (relate_to, drop_rel, ...) by a name table. 14 known findings F27/F28 (chart data-label / point accessors and "
+            "arguments, the guarded read idiom `if x.has_y: x.y`, the chart's embedded workbook, declared content types and the content-types "
+            "item compared entry for entry; never counted as proved). Look-up methods (index, get, in, []) are analysed statically as calls; package-level writers (relate_to, drop_rel, ...) by a name table. 14 known findings F27/F28 (chart data-label / point accessors and "
             "pattern-fill colours create non-empty content without saying so); DataLabels.show_* repaired by a fix: commit.",
 })
 
